@@ -303,7 +303,7 @@ pub fn gen_c14(out: &mut dyn Write, thorough: bool, seed: u64) {
     let mut r = Rng::new(seed ^ 0xC14);
     // windows 1..3 use the type-score cache (without tags), 4+ the automaton; weight vectors of 8 vs 9 entries
     let opts = GenOpts { windows: &[1, 2, 3, 4, 5, 8, 9], max_ngrams: 6, max_words: 4, max_word_len: 9 };
-    let n_models = if thorough { 6000 } else { 300 };
+    let n_models = if thorough { 2000 } else { 300 };
     for i in 0..n_models {
         let (mut m, alpha) = gen_model(&mut r, &opts);
         let with_tags = i % 3 != 0;
